@@ -434,6 +434,49 @@ def boundary_stream(ctx):
                 ctx.nontrivial(("boundary", k, j, how))
 
 
+def magnitude_stream(ctx):
+    """'to 15 significant digits' is RELATIVE: values of very small and very large magnitude (failure probabilities 2**-b, error
+    budgets eps/n, counts 10**k) keep their 15 digits — single monomials, so no cancellation can blur the comparison"""
+    rng = ctx.rng
+    q = {"name": "root", "input_params": ["b", "eps", "n"], "linked_params": [{"source": "b", "targets": ["rot.b"]}, {"source": "eps", "targets": ["rot.eps"]}],
+         "resources": [{"name": "failure_prob", "type": "other", "value": "2 ** (-b)"}, {"name": "error", "type": "other", "value": "eps / n / 3"},
+                       {"name": "big", "type": "other", "value": "7 * 10 ** b / n"}],
+         "children": [{"name": "rot", "input_params": ["b", "eps"], "resources": [{"name": "p", "type": "other", "value": "3 * 2 ** (-b - 2)"},
+                                                                                   {"name": "e", "type": "other", "value": "eps ** 2 / 7"}]}]}
+    st, r = try_compile(q)
+    ctx.stats["evaluations"] += 1
+    if st != "ok":
+        ctx.stats["magnitude_stream_compile_" + st] += 1
+        return
+    for i in range(ctx.n(40, 400)):
+        b = rng.choice([rng.randint(20, 50), rng.randint(54, 90), rng.randint(100, 300)])
+        k = rng.randint(6, 40)
+        n = rng.choice([3, 7, 9, 11])
+        asg = {"b": b, "eps": f"1/10**{k}", "n": n}
+        exact = {("root", "failure_prob"): Fraction(1, 2**b), ("root", "error"): Fraction(1, 10**k) / n / 3, ("root", "big"): Fraction(7 * 10**b, n),
+                 ("rot", "p"): Fraction(3, 2**(b + 2)), ("rot", "e"): Fraction(1, 10**(2 * k)) / 7}
+        for staged in (False, True):
+            try:
+                ev = (evaluate(evaluate(r.routine, {"b": b}).routine, {"eps": asg["eps"], "n": n}) if staged else evaluate(r.routine, asg)).routine
+            except Exception as e:
+                ctx.stats["magnitude_stream_raised_" + type(e).__name__] += 1
+                continue
+            ctx.stats["magnitude_stream_cases"] += 1
+            for (where, rn), exp in exact.items():
+                node = ev if where == "root" else ev.children["rot"]
+                v = node.resources[rn].value
+                try:
+                    got = Fraction(v) if isinstance(v, (int, float)) else Fraction(str(v)) if "/" in str(v) else Fraction(float(v))
+                except (TypeError, ValueError):
+                    ctx.violation("failing-input", f"{where}.{rn} is not a number after all inputs were assigned numbers", {"qref": q, "assignments_in_order": list(asg.items()), "staged": staged}, str(v), str(exp))
+                    return
+                if abs(got - exp) > abs(exp) * Fraction(1, 10**13):
+                    ctx.violation("failing-input", f"{where}.{rn} does not equal the exact value of its expression to 15 significant digits",
+                                  {"qref": q, "assignments_in_order": list(asg.items()), "staged": staged}, str(v), f"{float(exp):.15e}")
+                    return
+        ctx.nontrivial(("magnitude", b, k, n))
+
+
 def run(ctx, widen=False):
     n = ctx.n(300, 8000) * (3 if widen else 1)
     ctx.notes.append(PARTIAL_NOTE)
@@ -444,6 +487,8 @@ def run(ctx, widen=False):
     pipeline.run_stream(ctx, __name__, range(base, base + n), use_model=False)
     functions_stream(ctx)
     boundary_stream(ctx)
+    if not ctx.violations:
+        magnitude_stream(ctx)
     corpus(ctx)
 
 
